@@ -241,7 +241,7 @@ func checkC05(c *Check) {
 		// fields of remoteDelivery set from the override condition in the returned literal
 		ast.Inspect(r.FI.Decl.Body, func(n ast.Node) bool {
 			cl, ok := n.(*ast.CompositeLit)
-			if !ok || namedOf(r.Info.TypeOf(cl)) == nil || namedOf(r.Info.TypeOf(cl)).Obj().Name() != "remoteDelivery" {
+			if !ok || namedOf(r.Info.TypeOf(cl)) == nil || objName(namedOf(r.Info.TypeOf(cl)).Obj()) != "remoteDelivery" {
 				return true
 			}
 			for _, el := range cl.Elts {
